@@ -25,6 +25,7 @@ from . import parser_machine as PM
 WHAT = {
     "E1": "no internal exception reachable in the parser for any sequence of line classes, from every entry point",
     "E3": "only ParserError leaves the parser",
+    "E2": "catalogued fault 'And/But without any preceding step' is rejected (no step type left over from an earlier statement is used)",
     "E5": "parse_* wrappers attach the filename to a ParserError",
     "P2": "step type: given/when/then set it; and/but/* inherit within the statement; and/but first => background type or ParserError",
     "P1": "every keyword kind the parser looks up has a non-empty alias list in every language",
@@ -166,6 +167,9 @@ def _explore_reuse(ix, it, st, text):
 def _check_exits(chk, ix, entry, it, outs, p2, rules, func):
     fname = func.fullname + "[entry %s]" % entry
     for (s, err) in p2:
+        if "E2" in rules and "must be a ParserError" in err:
+            chk.fail(Finding("E2", "behave.parser:Parser.parse_step[entry %s]" % entry, err.split(" is accepted")[0],
+                             err, file=func.file, line=func.lineno, path=list(s.path)[-40:]))
         if "P2" in rules:
             chk.fail(Finding("P2", "behave.parser:Parser.parse_step[entry %s]" % entry, err.split(" gives")[0].split(" is accepted")[0],
                              err, file=func.file, line=func.lineno, path=list(s.path)[-40:]))
@@ -218,7 +222,7 @@ def check_machine(chk, ix, entry, rules, tier="quick", reuse=False):
     for r in rules:
         chk.rule(r, WHAT[r])
     classes = list(PM.LINE_CLASSES) if tier == "thorough" else [c for c in PM.LINE_CLASSES if c not in ("STEP_THEN", "STEP_BUT", "DOC_SQ")]
-    it, outs, p2 = explore_entry(ix, entry, classes, reuse=reuse, track_p2=("P2" in rules))
+    it, outs, p2 = explore_entry(ix, entry, classes, reuse=reuse, track_p2=("P2" in rules or "E2" in rules))
     chk.absorb(it)
     func = ix.func(PM.ENTRY_POINTS[entry][0]) if not reuse else ix.func("behave.parser:Parser.parse")
     for r in rules:
@@ -226,6 +230,8 @@ def check_machine(chk, ix, entry, rules, tier="quick", reuse=False):
     _check_exits(chk, ix, entry + ("(reused parser)" if reuse else ""), it, outs, p2, set(rules), func)
     if "P2" in rules and not p2:
         chk.ok("P2", {"entry": entry, "step type violations": 0}, nontrivial_key=(entry, "P2"))
+    if "E2" in rules and not any("must be a ParserError" in e for (_, e) in p2):
+        chk.ok("E2", {"entry": entry, "dangling And/But accepted": 0}, nontrivial_key=(entry, "E2"))
 
 
 # ----------------------------------------------------------------------
